@@ -1141,9 +1141,6 @@ impl HttpContext {
         if self.method == Some(Method::Head) {
             response.parsing_phase = kawa::ParsingPhase::Terminated;
         }
-        let close_delimited = response.body_size == kawa::BodySize::Empty
-            && self.method != Some(Method::Head)
-            && !matches!(self.status, Some(100..=199 | 204 | 304));
 
         // If found:
         // - set Connection to "close" if closing is set
@@ -1158,14 +1155,6 @@ impl HttpContext {
                         } else {
                             let val = header.val.data(buf);
                             self.keep_alive_backend &= !compare_no_case(val, b"close");
-                            // A response without Content-Length or chunked
-                            // framing is delimited by the end of the connection:
-                            // the client side must be closed after it too, or the
-                            // next bytes written there (e.g. the 408 of the idle
-                            // timeout) are read as part of this body.
-                            if close_delimited && compare_no_case(val, b"close") {
-                                self.keep_alive_frontend = false;
-                            }
                         }
                     }
                 }
